@@ -374,9 +374,14 @@ IsOpDesc(x) ==
         x = Op("many-optional", d, <<P("query", nQ1, TRUE, 1), P("query", nQ2, FALSE, 2), P("query", nKey, FALSE, 3), P("query", nC1, FALSE, 6)>>, <<>>, Cfg0)
   \/ Family # "c01" /\ \E ts \in {<<"string", "integer", "number", "boolean", "null", "object", "array">>, <<"string", "number", "boolean", "null", "array">>} :
         x = Op("type-array", "3.1", <<>>, <<[media |-> MJson, schema |-> [sk |-> "schema", type |-> ts, minLength |-> 2], required |-> TRUE]>>, Cfg0)
-  (* --- explicit values: the caller fixes q1, the rest of the location is generated (as_strategy(query={...})) --- *)
-  \/ Family \in {"c01", "c02"} /\ \E d \in OpDialects, a \in {1, 2}, b \in {1, 2} :
-        x = [MkOp("explicit", d, <<2, a, b>>, None3, None3, None3, None3, Cfg0) EXCEPT !.cfg = Cfg0 @@ [explicit |-> TRUE]]
+  (* --- explicit values (as_strategy(query={...}) / headers={...}): "declared" = the caller fixes q1, the rest of the location is generated;
+         "undeclared" = the caller adds as many UNDECLARED keys as the location declares parameters (an Authorization header, a debug
+         flag): every declared parameter still has to be generated - and negated --- *)
+  \/ Family \in {"c01", "c02"} /\ \E d \in OpDialects, b \in {1, 2} :
+        x = [MkOp("explicit", d, <<2, 1, b>>, None3, None3, None3, None3, Cfg0) EXCEPT !.cfg = Cfg0 @@ [explicit |-> "declared"]]
+  \/ Family \in {"c01", "c02"} /\ \E d \in OpDialects, p \in {<<1, 1, 0>>, <<2, 1, 0>>, <<2, 1, 2>>}, loc \in {"query", "header"} :
+        x = [MkOp("explicit", d, IF loc = "query" THEN p ELSE None3, None3, IF loc = "header" THEN p ELSE None3, None3, None3, Cfg0)
+               EXCEPT !.cfg = Cfg0 @@ [explicit |-> "undeclared"]]
   (* --- local references: parameter / body / nested schemas behind $ref (depth 1, 2, recursive below an optional property) --- *)
   \/ \E d \in OpDialects \cup {"2.0"}, j \in DOMAIN RefSchemas :
         x = [Op("ref", d, <<>>, <<[media |-> MJson, schema |-> RefSchemas[j], required |-> TRUE]>>, Cfg0) EXCEPT !.defs = RefDefs]
